@@ -1249,7 +1249,9 @@ def replay_file(path):
     pid, rp, key = rec["property"], rec["replay"], rec["key"]
     ctx = _ReplayCtx()
     fails = []
-    if pid == "C12":
+    if pid == "C12" and "dt" in rp:
+        fails = c12_default_dtype_group(dict(c=rp["config"], seed=rp["seed"], dts=[rp["dt"]], ts_list=[rp["ts"]]))["fails"]
+    elif pid == "C12":
         res = run_loop_spec(ctx, "replay", invariants=FIXED_INVS, Mode="fixed", TEnds={rp["T"]}, MaxInterior=3,
                             Dts={rp["d"]}, Emit=True, workers=2)
         behs = [b for b in res.printed if isinstance(b, dict) and (rp.get("ts") is None or b["ts"] == rp["ts"])]
@@ -1299,3 +1301,67 @@ def replay_file(path):
         print(f"REPLAY-VIOLATION property={pid} {k}: {msg}"[:800])
     print(f"replay of {path}: {'still failing' if fails else 'passes now'} ({len(fails)} findings)")
     return 1 if fails else 0
+
+
+# ---------------------------------------------------------------------------------------------------------
+# C12: the dt grid does not depend on the process default dtype (metamorphic pair of real runs)
+# ---------------------------------------------------------------------------------------------------------
+
+def c12_default_dtype_group(job):
+    """float64 problem, NON-dyadic dt given as a Python float: the same sdeint call under
+    torch.set_default_dtype(float64) and under torch.set_default_dtype(float32) must make the same Brownian queries
+    (as Python floats), the same number of steps, and return torch.equal outputs."""
+    torch.set_num_threads(1)
+    c, seed = job["c"], job["seed"]
+    fails, keys, drift = [], [], []
+    saved = torch.get_default_dtype()
+    try:
+        for dt in job["dts"]:
+            for ts_f in job["ts_list"]:
+                runs = {}
+                err = None
+                for dd in (torch.float64, torch.float32):
+                    torch.set_default_dtype(dd)
+                    try:
+                        p = Problem(c, seed)
+                        bm = p.bm(ts_f[0], ts_f[-1], max_calls=int(4 * (ts_f[-1] - ts_f[0]) / dt) + 50)
+                        ys = p.sdeint(ts_f, dt, bm)
+                        runs[dd] = (list(bm.log), ys)
+                    except Exception as e:  # noqa
+                        err = f"default dtype {dd}: {type(e).__name__}: {e}"
+                        break
+                    finally:
+                        torch.set_default_dtype(saved)
+                key = dict(clause="default_dtype_independence", method=c["label"], noise=c["noise"])
+                replay = dict(config=c, seed=seed, dt=dt, ts=ts_f)
+                if err:
+                    fails.append((key, f"dt={dt} ts={ts_f}: {err}", replay))
+                    continue
+                (q64, y64), (q32, y32) = runs[torch.float64], runs[torch.float32]
+                keys.append(f"default_dtype|{cfg_key(c)}|dt={dt}")
+                if len(q64) != len(q32):
+                    fails.append((key, f"dt={dt} ts={ts_f} ({c['ts_kind']} ts): {len(q64)} steps under default float64 but "
+                                       f"{len(q32)} under default float32; last queries {q64[-1]} vs {q32[-1]}", replay))
+                elif q64 != q32:
+                    i = next(i for i in range(len(q64)) if q64[i] != q32[i])
+                    fails.append((key, f"dt={dt} ts={ts_f} ({c['ts_kind']} ts): Brownian query {i} is {q64[i]!r} under default "
+                                       f"float64 but {q32[i]!r} under default float32: the step grid depends on the process "
+                                       f"default dtype", replay))
+                if y64.dtype != y32.dtype or y64.shape != y32.shape or not torch.equal(y64, y32):
+                    fails.append((key, f"dt={dt} ts={ts_f}: outputs differ between default dtypes (max "
+                                       f"{float((y64.double() - y32.double()).abs().max()) if y64.shape == y32.shape else 'shape'})",
+                                  replay))
+                # information only: the grid against the float64 accumulation t <- t + dt from ts[0], clipped at ts[-1]
+                t = torch.tensor(ts_f[0], dtype=torch.float64)
+                T = torch.tensor(ts_f[-1], dtype=torch.float64)
+                for k, (a, b) in enumerate(q64):
+                    nt = min(t + dt, T)
+                    tol = 2 * eps_of(torch.float64) * max(abs(float(nt)), abs(float(t)), 1e-300)
+                    if abs(a - float(t)) > tol or abs(b - float(nt)) > tol:
+                        drift.append(f"{cfg_key(c)} dt={dt}: step {k} is [{a!r}, {b!r}], float64 accumulation gives "
+                                     f"[{float(t)!r}, {float(nt)!r}]")
+                        break
+                    t = nt
+    finally:
+        torch.set_default_dtype(saved)
+    return dict(fails=fails, keys=keys, drift=drift)
